@@ -40,6 +40,11 @@ mod dirrt;
 use util::*;
 
 fn run_c01(out: &mut Out, tier: &str, rng: &mut Rng) {
+    // an accepted command must REACH the network's handler: bursts written back to back by a client, through the real
+    // session, command channel and command task; the newest commands (the final stop-all) are handled afterwards
+    for burst in [1usize, 16, 17, 40] {
+        c15::via_session(out, 1, burst);
+    }
     c01::run(out, tier, rng);
     authgen::run_c01_auth(out, tier, rng);
     out.rule.push_str("; authority level: real NetworkAuthority (recv / tick / command clones) with 1-2 hydraulic units whose timeouts are absent / expired / far away: random histories of motion commands, cycles, the unit's own status frames, foreign frames and engine commands");
@@ -48,9 +53,21 @@ fn run_c01(out: &mut Out, tier: &str, rng: &mut Rng) {
 const AUTH_NOTE: &str = "; authority level: random configurations of known units under the real NetworkAuthority (receive / tick / command clones), random histories of unit frames, the same frames from foreign nodes, random frames, cycles, motion and engine commands, compared event by event with the authority model";
 
 fn run_c02(out: &mut Out, tier: &str, rng: &mut Rng) {
+    // an accepted command must REACH the network's handler: bursts written back to back by a client, through the real
+    // session, command channel and command task; the newest commands (the final stop-all) are handled afterwards
+    for burst in [1usize, 16, 17, 40] {
+        c15::via_session(out, 1, burst);
+    }
     c02::run(out, tier, rng);
     authgen::run_generic_auth(out, tier, rng, "motion frames");
     out.rule.push_str(AUTH_NOTE);
+}
+
+fn run_c07(out: &mut Out, tier: &str, rng: &mut Rng) {
+    c07::run(out, tier, rng);
+    // the governor as the engine driver applies it (which reported status, which command, WHICH AGE it is handed on every
+    // cycle): the driver-level histories of C08
+    drv::run_c08(out, tier, rng);
 }
 
 fn run_c08(out: &mut Out, tier: &str, rng: &mut Rng) {
@@ -151,7 +168,7 @@ fn main() {
         "C05" => run_c05,
         "C14" => run_c14,
         "C06" => run_c06,
-        "C07" => c07::run,
+        "C07" => run_c07,
         "C08" => run_c08,
         "C09" => run_c09,
         "C10" => run_c10,
